@@ -617,6 +617,18 @@ def aiter_failures(v):
             after = looks[looks.index("__aiter__") + 1:] if "__aiter__" in looks else looks
             after = [a for a in after if a != "aclose"]      # being asked to close is no use of the iterable
             got = "same" if res[0] == "raised" and res[1] is err else f"{res[0]}:{type(res[1]).__name__}"
+            if name == "chain" and got == "same":
+                # a lazy tool gets to the failing iterable only after what comes before it: chain([1, 2], failing)
+                seen = []
+
+                async def lazily():
+                    async for x in L.chain([1, 2], Failing()):
+                        seen.append(x)
+
+                Task(lazily(), Accounting()).run()
+                if seen != [1, 2]:
+                    v.violation("C06/chain/items-before-failure-missing+failing-aiter",
+                                {"engine": "scenario", "exception": exc_cls.__name__, "expected": [1, 2], "observed": seen})
             if got != "same":
                 v.violation(f"C06/{name}/failure-of-aiter-not-propagated-unchanged",
                             {"engine": "scenario", "exception": exc_cls.__name__, "expected": "the exception raised by __aiter__", "observed": got + " " + repr(res[1])[:80]})
